@@ -610,9 +610,9 @@ ChkStmt(s, defs) ==
     [] s.s = "pcopy" -> <<\A j \in 1..Len(s.rhss) : ArgOK(s.rhss[j], defs), defs \cup SeqSet(s.lhss)>>
     [] s.s = "if" -> LET t == Chk(s.th, defs) e == Chk(s.el, defs)
                      IN <<ArgOK(s.cond, defs) /\ t[1] /\ e[1], t[2] \cap e[2]>>
-    [] s.s = "loop" -> LET \* the loop variable is the iteration number at the start of every iteration, also when the
-                           \* body assigns it (before the fix af87660 in /repo a carried variable of that name shadowed it)
-                           d1 == IF s.iter = NONE THEN defs ELSE defs \cup {s.iter}
+    [] s.s = "loop" -> LET \* a loop variable that the body assigns and reads first is a loop-carried variable for the
+                           \* converter: it needs a definition in front of the loop (else: Unbound name)
+                           d1 == IF s.iter = NONE \/ s.iter \in Assigned(s.body) THEN defs ELSE defs \cup {s.iter}
                            b == Chk(s.body, d1)
                        IN << /\ ArgOK(s.bound, defs)
                              /\ (s.iter # NONE /\ s.bound.a = "none" => s.brk = "ok")   \* range(None); design: a counter
